@@ -148,6 +148,14 @@ NormSq(A) ==
   IN [dims |-> A.dims, k |-> 0, p |-> 0,
       val |-> Eager([m \in 1..NPix(A) |-> SumSeq([c \in 1..nc |-> A.val[(m - 1) * nc + c] * A.val[(m - 1) * nc + c]])])]
 
+(* ---- spatial sum, broadcast back over the pixels: the numerator of the spatial mean (a spatially constant field of the ---- *)
+(* ---- same type; the typing rule "smean" of EquivCalculus.tla, and with TProd / Contract its rules "cov" and "matvec") ---- *)
+SpatialSum(A) ==
+  LET nc == NComp(A)
+      np == NPix(A)
+      tot == Eager([c \in 1..nc |-> SumSeq([m \in 1..np |-> A.val[(m - 1) * nc + c]])])
+  IN [A EXCEPT !.val = Eager([n \in 1..Len(A.val) |-> tot[((n - 1) % nc) + 1]])]
+
 (* ---- cyclic translation by t (per-axis offsets): (Shift(A,t))(x) = A(x - t) ---- *)
 Shift(A, t) ==
   LET D == DimI(A)
